@@ -20,16 +20,17 @@ if ! cargo test --offline -j 8 --test "seeded_${ID}_${K}" >> "$LOG" 2>&1; then s
 # 2. with the patch: suite + demo
 git apply "$SRC/patch.diff"
 cargo test --workspace --no-fail-fast --offline -j 8 > "$WT/out/$K/suite_confirm.log" 2>&1
-failed=$(grep -E '^test .* \.\.\. FAILED' "$WT/out/$K/suite_confirm.log" | grep -v 'seeded_' | awk '{print $2}' | sort -u)
+# failing tests per test binary (sections start with "Running <target>"); the demo's own binary is expected to fail
+failed=$(awk '/^ +Running /{bin=$2; if ($2=="unittests") bin="--lib"; else {sub(/^tests\//,"",bin); sub(/\.rs$/,"",bin); bin="--test=" bin}} /^ +Doc-tests/{bin="--doc"} /^test .* \.\.\. FAILED/{print bin "|" $2}' "$WT/out/$K/suite_confirm.log" | grep -v 'seeded_' | sort -u)
 demo_failed=0
-# the demo is an integration test binary of its own: its failures show under its own section
 if cargo test --offline -j 8 --test "seeded_${ID}_${K}" >> "$LOG" 2>&1; then demo_failed=0; else demo_failed=1; fi
-# retry suspicious non-demo failures alone (timing tests under load)
+# retry non-demo failures alone (timing tests under load)
 real_fail=""
 for t in $failed; do
-  if ! cargo test --offline -j 8 --lib -- --exact "$t" >> "$LOG" 2>&1 ; then
-     if ! cargo test --offline -j 8 -- --exact "$t" >> "$LOG" 2>&1 ; then real_fail="$real_fail $t"; fi
-  fi
+  bin="${t%%|*}"; name="${t##*|}"
+  out=$(cargo test --offline -j 8 $bin -- --exact "$name" 2>&1); rc=$?
+  echo "$out" >> "$LOG"
+  if [ $rc -ne 0 ] || ! echo "$out" | grep -q "test result: ok. 1 passed"; then real_fail="$real_fail $t"; fi
 done
 passed=$(grep -cE '^test .* \.\.\. ok' "$WT/out/$K/suite_confirm.log")
 git checkout -q -- src
